@@ -46,13 +46,15 @@ ASSUMPTIONS = [
 
 FEATS = ["area_um", "aspect", "bright_avg", "contour", "deform", "fl1_max",
          "fl1_npeaks", "fl2_max", "fl3_max", "frame", "image", "image_bg",
-         "index", "mask", "pos_x", "time", "trace", "userdef1", "userdef2",
-         "vtmp"]
-assert FEATS == sorted(FEATS) and len(FEATS) == 20
+         "index", "mask", "pos_x", "qpi_amp", "qpi_oah", "qpi_pha", "time",
+         "trace", "userdef1", "userdef2", "vtmp"]
+assert FEATS == sorted(FEATS) and len(FEATS) == 23
 FID = {n: i for i, n in enumerate(FEATS)}
 assert (FID["contour"], FID["fl1_max"], FID["fl1_npeaks"], FID["fl2_max"],
         FID["fl3_max"], FID["frame"], FID["image"], FID["index"], FID["mask"],
-        FID["trace"]) == (3, 5, 6, 7, 8, 9, 10, 12, 13, 16)
+        FID["trace"], FID["image_bg"], FID["qpi_amp"], FID["qpi_oah"],
+        FID["qpi_pha"], FID["vtmp"]) == (3, 5, 6, 7, 8, 9, 10, 12, 13, 19, 11,
+                                         15, 16, 17, 22)
 TRACES = ["fl1_median", "fl1_raw", "fl2_median", "fl2_raw", "fl3_median",
           "fl3_raw"]
 TID = {n: i for i, n in enumerate(TRACES)}
@@ -69,8 +71,10 @@ META = [("experiment", "event count", int), ("imaging", "roi size x", int),
 UINT32 = {"fl1_max", "fl1_npeaks", "fl2_max", "fl3_max", "index"}
 UINT64 = {"frame"}
 SCALARS = [f for f in FEATS if f not in ("contour", "image", "image_bg",
-                                         "mask", "trace", "vtmp")]
+                                         "mask", "trace", "vtmp", "qpi_amp",
+                                         "qpi_oah", "qpi_pha")]
 VTMP_SHAPE = (2, 3)
+QPI_SHAPE = (3, 4)
 MODES = ["append", "replace", "reset"]
 CSBS = [1024 ** 2, 4096, 512]
 
@@ -235,14 +239,23 @@ def feature_ops(np, rng, feats, a, b, int_first=()):
             rng.shuffle(keys)
             ops.append(["trace", [gen.TRACE_LEN], 2,
                         [[TID[k], data[k].desc(a, b)] for k in keys]])
-        elif name in ("image", "image_bg"):
-            ops.append(["image", FID[name], 0, list(gen.IMG_SHAPE), 1,
-                        data.desc(a, b)])
-        elif name == "mask":
-            ops.append(["image", FID[name], int(data.kind == 1),
-                        list(gen.IMG_SHAPE), 1, data.desc(a, b)])
-        elif name == "vtmp":
-            ops.append(["image", FID[name], 0, list(VTMP_SHAPE), 8,
+        elif name in ("image", "image_bg", "mask"):
+            isbool = int(name == "mask" and data.kind == 1)
+            if b - a == 1 and rng.random() < 0.5:
+                # a single event given as a 2-d array
+                ops.append(["arr", FID[name], isbool, list(gen.IMG_SHAPE),
+                            list(gen.IMG_SHAPE), 1, data.desc(a, b)])
+            else:
+                ops.append(["image", FID[name], isbool, list(gen.IMG_SHAPE),
+                            1, data.desc(a, b)])
+        elif name in ("vtmp", "qpi_amp", "qpi_oah", "qpi_pha"):
+            shape = list(VTMP_SHAPE if name == "vtmp" else QPI_SHAPE)
+            isz = {"vtmp": 8, "qpi_oah": 1}.get(name, rng.choice([4, 8]))
+            if b - a == 1 and rng.random() < 0.6:
+                dshape = shape       # shape == data.shape: one event
+            else:
+                dshape = [b - a] + shape
+            ops.append(["arr", FID[name], 0, shape, dshape, isz,
                         data.desc(a, b)])
         else:
             part = data[a:b]
@@ -253,7 +266,8 @@ def feature_ops(np, rng, feats, a, b, int_first=()):
 
 
 ALLKINDS = ["scalar", "uint", "image", "image_bg", "mask", "contour", "trace"]
-ALLEXTRA = ["index", "vtmp", "fl2_max", "userdef2", "uintmask"]
+ALLEXTRA = ["index", "vtmp", "fl2_max", "userdef2", "uintmask", "qpi_amp",
+            "qpi_oah", "qpi_pha"]
 
 
 def make_features(np, rng, n, kinds, special, extra, names=None):
@@ -296,6 +310,13 @@ def make_features(np, rng, n, kinds, special, extra, names=None):
     if "vtmp" in extra:
         feats["vtmp"] = Gen(3, rng.randint(0, 999),
                             VTMP_SHAPE[0] * VTMP_SHAPE[1])
+    for name in ("qpi_amp", "qpi_pha"):
+        if name in extra:
+            feats[name] = Gen(3, rng.randint(0, 999),
+                              QPI_SHAPE[0] * QPI_SHAPE[1])
+    if "qpi_oah" in extra:
+        feats["qpi_oah"] = Gen(0, rng.randint(0, 999),
+                               QPI_SHAPE[0] * QPI_SHAPE[1])
     if "fl2_max" in extra:
         feats["fl2_max"] = np.array([rng.choice([0, 1, 2 ** 32 - 1,
                                                  rng.randint(0, 70000)])
@@ -319,6 +340,8 @@ def gen_case(rng, thorough=False):
     kinds = ["scalar"] + [k for k in allkinds[1:] if rng.random() < 0.45]
     extra = [e for e in ("index", "vtmp", "fl2_max", "userdef2", "uintmask")
              if rng.random() < 0.3]
+    extra += [e for e in ("qpi_amp", "qpi_oah", "qpi_pha")
+              if rng.random() < 0.15]
     if rng.random() < 0.12:
         extra.append("intscalar")
     special = rng.random() < 0.6
@@ -384,6 +407,11 @@ def gen_case(rng, thorough=False):
                 for _ in range(rng.choice([0, 0, 1, 2])):
                     fops.insert(rng.randint(0, len(fops)), rand_side_op(
                         rng, overlong and (pi > 0 or si > 0)))
+                if rng.random() < 0.04 and mode != 1 and "vtmp" in cur:
+                    # neither shape == data.shape nor shape == data.shape[1:]
+                    fops.insert(rng.randint(0, len(fops)),
+                                ["arr", FID["vtmp"], 0, list(VTMP_SHAPE),
+                                 [2, 3, 2], 8, {"gen": [3, 1, 0, 2, 6]}])
                 if rng.random() < 0.04 and mode != 1:
                     fops.insert(rng.randint(0, len(fops)),
                                 ["scalar", FID[rng.choice(
@@ -409,7 +437,8 @@ def rand_side_op(rng, overlong):
         nrow = rng.randint(1, 5)
         cols = rng.sample(range(len(COLS)), ncol)
         return ["table", rng.randrange(len(TABLES)), cols,
-                [[rng.randint(-400, 400) for _ in cols] for _ in range(nrow)]]
+                [[rng.randint(-400, 400) for _ in cols] for _ in range(nrow)],
+                rng.choice([0, 0, 1])]
     return ["meta", "", rand_meta(rng, False)]
 
 
@@ -562,6 +591,35 @@ def run_impl(case, scratch, keep=False):
                             hw.store_feature(name, data, shape=shape)
                     else:
                         hw.store_feature(name, data)
+                elif kind == "arr":
+                    name = FEATS[o[1]]
+                    shape, dshape, isz = tuple(o[3]), tuple(o[4]), o[5]
+                    rows = expand(o[6])
+                    flat = np.array([v for r in rows for v in r])
+                    if name in ("vtmp", "qpi_amp", "qpi_pha"):
+                        arr = (flat / 8).astype(
+                            np.float32 if isz == 4 else np.float64)
+                    else:
+                        arr = flat.astype(np.uint8)
+                        if o[2]:
+                            arr = arr.astype(bool)
+                    arr = arr.reshape(dshape)
+                    item = shape if name == "vtmp" else (
+                        gen_img_shape() if name in ("image", "image_bg",
+                                                    "mask") else QPI_SHAPE)
+                    info["calls"][name] = info["calls"].get(name, 0) + 1
+                    good = dshape == tuple(item) or dshape[1:] == tuple(item)
+                    if good:
+                        events = list(arr.reshape((-1,) + tuple(item)))
+                        if name == "mask":
+                            events = [e != 0 for e in events]
+                        exp.put(exp.feat, name, events)
+                        info["single"] = info.get("single", 0) + int(
+                            dshape == tuple(item))
+                    if name == "vtmp":
+                        hw.store_feature(name, arr, shape=shape)
+                    else:
+                        hw.store_feature(name, arr)
                 elif kind == "contour":
                     data = [np.array(c, dtype=np.int32).reshape(-1, 2)
                             for c in o[1]]
@@ -591,6 +649,11 @@ def run_impl(case, scratch, keep=False):
                            for j, c in enumerate(o[2])}
                     if name not in exp.tables:
                         exp.tables[name] = tab
+                    if len(o) > 4 and o[4]:
+                        # the same table as a np.recarray (written as-is)
+                        tab = np.rec.fromarrays(
+                            [np.array(v, dtype=np.float64)
+                             for v in tab.values()], names=list(tab.keys()))
                     hw.store_table(name, tab)
                 elif kind == "meta":
                     md = meta_dict(o[1], o[2])
@@ -622,6 +685,11 @@ def run_impl(case, scratch, keep=False):
         if not keep and os.path.exists(path):
             os.unlink(path)
     return flat, failures, info
+
+
+def gen_img_shape():
+    from . import gen
+    return tuple(gen.IMG_SHAPE)
 
 
 def rows_flat(rows):
@@ -924,6 +992,9 @@ def render_op(o):
     if k == "image":
         return "OImage %d %s %s %d %s" % (o[1], common.blit(o[2]), zl(o[3]),
                                           o[4], zll(o[5]))
+    if k == "arr":
+        return "OArr %d %s %s %s %d (concat %s)" % (
+            o[1], common.blit(o[2]), zl(o[3]), zl(o[4]), o[5], zll(o[6]))
     if k == "contour":
         return "OContour %s" % zll(o[1])
     if k == "trace":
@@ -958,20 +1029,31 @@ def load_corpus():
     return cases
 
 
-def exhaustive_compositions(rng, n):
-    """all 2^(n-1) compositions of n events of a few feature kinds"""
+def exhaustive_sweep(rng, nmax):
+    """Every composition of N = 1..nmax events into successive append calls
+    (2^(N-1) each), every feature kind in each case, and for each composition
+    every position of one writer re-open (or none). Returns (cases, counts)"""
     np = _np()
     cases = []
-    feats = make_features(np, rng, n, ["scalar", "image", "contour", "trace"],
-                          True, ["index"])
-    for bits in range(2 ** (n - 1)):
-        bounds = [0] + [i + 1 for i in range(n - 1) if bits >> i & 1] + [n]
-        ops = [["config", 512], ["open", 2], ["meta", "base", []]]
-        for a, b in zip(bounds[:-1], bounds[1:]):
-            ops += feature_ops(np, rng, feats, a, b)
-        ops.append(["close"])
-        cases.append(dict(ops=ops))
-    return cases
+    counts = {}
+    for n in range(1, nmax + 1):
+        feats = make_features(np, rng, n, ["scalar", "uint", "image", "mask",
+                                           "contour", "trace"], True,
+                              ["index", "vtmp", "qpi_amp"])
+        k0 = len(cases)
+        for bits in range(2 ** (n - 1)):
+            bounds = [0] + [i + 1 for i in range(n - 1) if bits >> i & 1] + [n]
+            parts = list(zip(bounds[:-1], bounds[1:]))
+            for reopen in [None] + list(range(1, len(parts))):
+                ops = [["config", 512], ["open", 2], ["meta", "base", []]]
+                for j, (a, b) in enumerate(parts):
+                    if reopen == j:
+                        ops += [["close"], ["open", 0]]
+                    ops += feature_ops(np, rng, feats, a, b)
+                ops.append(["close"])
+                cases.append(dict(ops=ops))
+        counts["N=%d" % n] = len(cases) - k0
+    return cases, counts
 
 
 def _work(args):
@@ -985,14 +1067,19 @@ def _work(args):
 
 def run(run):
     import multiprocessing
-    ncases = 1500 if run.thorough else 110
+    ncases = 1900 if run.thorough else 120
     cases = load_corpus()
     run.count("corpus", len(cases))
-    if run.thorough:
-        cases += exhaustive_compositions(run.rng, 8)
-        cases += exhaustive_compositions(run.rng, 6)
-    else:
-        cases += exhaustive_compositions(run.rng, 4)
+    nmax = 7 if run.thorough else 4
+    sweep, counts = exhaustive_sweep(run.rng, nmax)
+    cases += sweep
+    run.extra["exhaustive_sweep"] = dict(
+        exhaustive=True, cases=len(sweep), per_event_count=counts,
+        scope="every composition of N <= %d events into successive append "
+              "calls x every position of one writer re-open (or none); each "
+              "case holds float/uint scalars, index, image, mask, contour, "
+              "trace, a user-shaped and a float32 image feature; "
+              "CHUNK_SIZE_BYTES=512" % nmax)
     while len(cases) < ncases:
         cases.append(gen_case(run.rng, run.thorough))
     import dclab  # noqa: F401 (imported before the fork)
@@ -1007,6 +1094,12 @@ def run(run):
         for o in c["ops"]:
             run.count("op:" + o[0] + (":%s" % MODES[o[1]] if o[0] == "open"
                                       else ""))
+        run.count("single-event-form", info.get("single", 0))
+        for o in c["ops"]:
+            if o[0] == "table" and len(o) > 4 and o[4]:
+                run.count("table:recarray")
+            if o[0] == "arr" and len(o[4]) == 3 and o[4][1:] == [3, 2]:
+                run.count("arr:bad-shape")
         for name, k in info["calls"].items():
             run.count("feature:" + name)
             run.count("calls-per-feature:%s" % ("1" if k == 1 else "2-4" if
